@@ -176,9 +176,16 @@ def zip_into_row(O):
             "the position of the first answer entry whose signal equals the expected signal, Virtual for virtual signals, "
             "None if the driver does not supply it; the learnt count equals the number of Output entries")
 def output_positions(O):
-    for nexp, nout in ((2, 2), (2, 1), (3, 2) if O.tier == "thorough" else (1, 2)):
+    for nexp, nout in ((2, 2), (2, 1), (1, 2)) + (((3, 2),) if O.tier == "thorough" else ()):
         _output_positions(O, nexp, nout)
-    O.note("configurations (expected entries, answer entries): (2,2), (2,1) and (1,2) [(3,2) in the thorough tier]")
+    O.note("configurations (expected entries, answer entries): (2,2), (2,1) and (1,2) [(3,2) in the thorough tier]; (3,3) is an obligation of its own")
+
+
+@obligation("C03/output-positions[3 expected, 3 answered]", desc="build_output_indices with three expected entries and three answer "
+            "entries (the smallest configuration in which a layout can be a rotation, i.e. a permutation that differs from its "
+            "inverse): each stored index is the position of the first answer entry whose signal equals the expected signal")
+def output_positions_33(O):
+    _output_positions(O, 3, 3)
 
 
 def _output_positions(O, NEXP, NOUT):
